@@ -539,6 +539,10 @@ func (prog Progress) walk_transform_iterateList(n datamodel.Node, s selector.Sel
 					lnk, _ := v.AsLink()
 					if prog.Cfg.LinkVisitOnlyOnce {
 						if _, seen := prog.SeenLinks[lnk]; seen {
+							// not followed again: the link itself stays where it is
+							if err := lstBldr.AssembleValue().AssignNode(v); err != nil {
+								return nil, err
+							}
 							continue
 						}
 						prog.SeenLinks[lnk] = struct{}{}
@@ -549,13 +553,17 @@ func (prog Progress) walk_transform_iterateList(n datamodel.Node, s selector.Sel
 					v, err = progNext.loadLink(lnk, v, n)
 					if err != nil {
 						if _, ok := err.(SkipMe); ok {
+							// not followed: the link itself stays where it is
+							if err := lstBldr.AssembleValue().AssignNode(lnkNode); err != nil {
+								return nil, err
+							}
 							continue
 						}
 						return nil, err
 					}
 				}
 
-				next, err := progNext.WalkTransforming(v, sNext, fn)
+				next, err := progNext.walkTransforming(v, sNext, fn)
 				if err != nil {
 					return nil, err
 				}
@@ -615,6 +623,10 @@ func (prog Progress) walk_transform_iterateMap(n datamodel.Node, s selector.Sele
 					lnk, _ := v.AsLink()
 					if prog.Cfg.LinkVisitOnlyOnce {
 						if _, seen := prog.SeenLinks[lnk]; seen {
+							// not followed again: the link itself stays where it is
+							if err := mapBldr.AssembleValue().AssignNode(v); err != nil {
+								return nil, err
+							}
 							continue
 						}
 						prog.SeenLinks[lnk] = struct{}{}
@@ -625,13 +637,17 @@ func (prog Progress) walk_transform_iterateMap(n datamodel.Node, s selector.Sele
 					v, err = progNext.loadLink(lnk, v, n)
 					if err != nil {
 						if _, ok := err.(SkipMe); ok {
+							// not followed: the link itself stays where it is
+							if err := mapBldr.AssembleValue().AssignNode(lnkNode); err != nil {
+								return nil, err
+							}
 							continue
 						}
 						return nil, err
 					}
 				}
 
-				next, err := progNext.WalkTransforming(v, sNext, fn)
+				next, err := progNext.walkTransforming(v, sNext, fn)
 				if err != nil {
 					return nil, err
 				}
